@@ -157,6 +157,12 @@ func c14RunUnit(u c14Unit, dir string) (sig, what string) {
 	var acc int64
 	rejected := false
 	for _, p := range parts {
+		if rejected {
+			// the response writer of the middleware swallows the overflow error, so the reverse proxy
+			// keeps writing the rest of the body into the same buffer
+			buf.Write(p)
+			continue
+		}
 		n, err := buf.Write(p)
 		if u.MaxBytes > 0 && acc+int64(len(p)) > u.MaxBytes {
 			if !errors.Is(err, server.ErrMaximumSizeExceeded) {
@@ -164,7 +170,7 @@ func c14RunUnit(u c14Unit, dir string) (sig, what string) {
 				return "limit-not-enforced", fmt.Sprintf("write taking the body to %d bytes accepted with limit %d (n=%d err=%v)", acc+int64(len(p)), u.MaxBytes, n, err)
 			}
 			rejected = true
-			break
+			continue
 		}
 		if err != nil || n != len(p) {
 			buf.Close()
